@@ -2840,6 +2840,9 @@ func (db *DB) Export(ctx context.Context, dst io.Writer) (ltx.Pos, error) {
 	// Determine current position & snapshot overriding WAL frames.
 	pos := db.Pos()
 	pageSize, pageN := db.pageSize, db.PageN()
+	if pageSize == 0 {
+		return pos, fmt.Errorf("database has no pages") // never written to, e.g. created by a halt request
+	}
 	walFrameOffsets := make(map[uint32]int64, len(db.wal.frameOffsets))
 	for k, v := range db.wal.frameOffsets {
 		walFrameOffsets[k] = v
